@@ -1,5 +1,7 @@
 import RosuModel.Lemmas.TaikoPreColourAll
 import RosuModel.Lemmas.TaikoPreRhythm
+import RosuModel.Lemmas.TaikoPreRhythmLive
+import RosuModel.Lemmas.TaikoPreLive
 
 /-!
 `preprocess` (= everything `create_difficulty_objects` builds) never fails, with the invariants of
@@ -117,6 +119,58 @@ theorem preprocess_spec (A : Arith T) (clock : T) (objs : List (Obj T)) :
   refine ⟨⟨st, monos, alts, reps, ivs, colour, rgs, pgs, pgi, pgr, rh, ws, ls⟩, ?_, ?_⟩
   · simp only [preprocess, hb, hc, hr, hw, hl, Option.bind_eq_bind, Option.bind_some]
   · exact ⟨hwf, hlen, hkinds, hci, ⟨r1, r2, r3, r4, r5, r6, r7, r8⟩, hwl, hll⟩
+
+/-- The parts of a preprocessed structure are what the three stages return. -/
+theorem preprocess_parts (A : Arith T) (clock : T) (objs : List (Obj T)) (p : Pre T)
+    (h : preprocess A clock objs = some p) :
+    build A clock objs = some p.store ∧
+    colourOf p.store = some (p.monos, p.alts, p.reps, p.repIntervals, p.colour) ∧
+    rhythmOf A p.store = some (p.rgroups, p.pgroups, p.pgInterval, p.pgRatio, p.rhythm) := by
+  unfold preprocess at h
+  cases hb : build A clock objs with
+  | none => simp [hb] at h
+  | some st =>
+    cases hc : colourOf st with
+    | none => simp [hb, hc] at h
+    | some c =>
+      obtain ⟨monos, alts, reps, ivs, colour⟩ := c
+      cases hr : rhythmOf A st with
+      | none => simp [hb, hc, hr] at h
+      | some r =>
+        obtain ⟨rgs, pgs, pgi, pgr, rh⟩ := r
+        cases hw : st.objects.mapM (colourWindow st) with
+        | none => simp [hb, hc, hr, hw] at h
+        | some ws =>
+          cases hl : lookupsOf st reps colour with
+          | none => simp [hb, hc, hr, hw, hl] at h
+          | some ls =>
+            simp [hb, hc, hr, hw, hl] at h
+            subst h
+            exact ⟨rfl, hc, hr⟩
+
+/-- **Liveness**: every repeating hit pattern, every rhythm group and every pattern group is
+referenced by at least one difficulty object (in the code: held by a strong `RefCount` in that
+object's `color_data` / `rhythm_data`), and an object's rhythm data points at the groups containing
+it. -/
+theorem preprocess_live (A : Arith T) (clock : T) (objs : List (Obj T)) (p : Pre T)
+    (h : preprocess A clock objs = some p) :
+    (∀ k : Nat, k < p.reps.length → ∃ q : Nat, ∃ c : ColourOf, p.colour[q]? = some c ∧ c.1 = k) ∧
+    (∀ q g r : Nat, p.rhythm[q]? = some (some (g, r)) →
+      (∃ rg : RGroup T, p.rgroups[g]? = some rg ∧ q ∈ rg.members) ∧
+        (∃ pg : List Nat, p.pgroups[r]? = some pg ∧ g ∈ pg)) ∧
+    (∀ g : Nat, g < p.rgroups.length → ∃ q r : Nat, p.rhythm[q]? = some (some (g, r))) ∧
+    (∀ r : Nat, r < p.pgroups.length → ∃ q g : Nat, p.rhythm[q]? = some (some (g, r))) := by
+  obtain ⟨p', hp', hi⟩ := preprocess_spec A clock objs
+  rw [h] at hp'; cases hp'
+  obtain ⟨_, _, hr⟩ := preprocess_parts A clock objs p h
+  have hnd : p.store.notes.Nodup :=
+    List.Pairwise.imp (fun hlt => Nat.ne_of_lt hlt) hi.wf.notes_sorted
+  obtain ⟨rgs, pgs, pgi, pgr, rh, hr', s1, l1, l2⟩ := rhythmOf_live A p.store hi.wf.notes_lt hnd
+  rw [hr] at hr'
+  simp only [Option.some.injEq, Prod.mk.injEq] at hr'
+  obtain ⟨e1, e2, _, _, e5⟩ := hr'
+  subst e1 e2 e5
+  exact ⟨fun k hk => every_rep_is_held hi.colour k hk, s1, l1, l2⟩
 
 /-- Exact integer arithmetic (times in ms, truncating division) for concrete witnesses. -/
 def intArith : Arith Int where
